@@ -128,6 +128,12 @@ func (h *Hub) ServeHTTP(w http.ResponseWriter, r *http.Request) {
 	h.muxConnect.Lock()
 	defer h.muxConnect.Unlock()
 
+	// no new connections once the hub is shut down
+	if h.checkHasShutdown() {
+		_ = conn.Close()
+		return
+	}
+
 	// don't allow a second connection
 	if !h.keepThisConnection(conn, true, remoteService) {
 		_ = conn.Close()
@@ -180,6 +186,11 @@ func (h *Hub) connectFoundService(remoteService *api.ServiceDetails, host, port,
 	if err == nil {
 		defer resp.Body.Close()
 	} else {
+		// the first attempt may have taken its time
+		if h.checkHasShutdown() {
+			return nil
+		}
+
 		address = fmt.Sprintf("wss://%s:%s", host, port)
 		conn, resp, err = dialer.Dial(address, nil)
 		if err != nil {
@@ -215,6 +226,12 @@ func (h *Hub) connectFoundService(remoteService *api.ServiceDetails, host, port,
 
 	h.muxConnect.Lock()
 	defer h.muxConnect.Unlock()
+
+	// the hub may have been shut down while the connection was being established
+	if h.checkHasShutdown() {
+		_ = conn.Close()
+		return nil
+	}
 
 	// the user may have removed the service or cancelled the pairing while the connection
 	// was being established, then it must not be used
